@@ -301,6 +301,10 @@ def parse_enum(enum_type: type[E]) -> Callable[[str], E]:
     # "(...).parse_enum.<locals>._parse_enum" or something.
     @functools.wraps(enum_type)
     def _parse_enum(v: str) -> E:
+        if isinstance(v, enum_type):
+            # A default that is a member of a `class X(str, Enum)` is a `str` too, so argparse runs it
+            # through `type=` like any other string default: it is already parsed.
+            return v
         try:
             return enum_type[v]
         except KeyError:
